@@ -19,6 +19,10 @@ import (
 //	                parseDebugFrame (= the consume* functions); out-of-range encodings
 //	                must be refused; every single-byte corruption and truncation of every
 //	                valid encoding must parse without panic within the input.
+//	part "rawframes" valid and out-of-range encodings the writer never produces:
+//	                STREAM frames with every OFF/LEN/FIN type byte (data to the end of
+//	                the packet, explicit zero offset) x offsets on both sides of
+//	                offset+length = 2^62-1, and every frame with non-shortest varints.
 //	part "ackranges" ACK frames from range sets of up to 321 (thorough: every count up
 //	                to 330) ranges, around every boundary of the one-byte ACK Range
 //	                Count the writer reserves, x every amount of packet space: whatever
@@ -40,6 +44,35 @@ func c28V(b []byte, v uint64) []byte {
 		return append(b, 0xc0|byte(v>>56), byte(v>>48), byte(v>>40), byte(v>>32), byte(v>>24), byte(v>>16), byte(v>>8), byte(v))
 	}
 	panic("c28: varint out of range")
+}
+
+// c28VW encodes v as an RFC 9000 §16 varint: mode 0 in the shortest form, mode 1
+// in the next longer form, mode 2 in 8 bytes (all are valid encodings of v).
+func c28VW(b []byte, v uint64, mode int) []byte {
+	if v >= 1<<62 {
+		panic("c28: varint out of range")
+	}
+	lg := 0 // log2 of the length
+	for _, lim := range []uint64{1 << 6, 1 << 14, 1 << 30} {
+		if v >= lim {
+			lg++
+		}
+	}
+	switch mode {
+	case 1:
+		lg = min(lg+1, 3)
+	case 2:
+		lg = 3
+	}
+	n := 1 << lg
+	for i := n - 1; i >= 0; i-- {
+		by := byte(v >> (8 * uint(i)))
+		if i == n-1 {
+			by |= byte(lg) << 6
+		}
+		b = append(b, by)
+	}
+	return b
 }
 
 func c28Data(n int, salt byte) []byte {
@@ -68,6 +101,9 @@ type c28F struct {
 	Fin bool   `json:"flag,omitempty"` // stream: FIN; max_streams/streams_blocked: unidirectional
 	M   uint32 `json:"mask,omitempty"` // ack: blocks received
 	Ecn int    `json:"ecn,omitempty"`  // ack: 0 no counts, 1 small counts, 2 large counts
+	// part rawframes only:
+	T byte `json:"type,omitempty"`  // stream: the raw type byte 0x08..0x0f (0: the form the writer emits)
+	W int  `json:"width,omitempty"` // varint encodings: 0 shortest, 1 next longer, 2 all 8 bytes
 }
 
 var c28AckWidths = []int64{1, 70, 1, 1, 70, 2, 1, 16400, 1}
@@ -91,6 +127,12 @@ func c28AckRanges(mask uint32) (out []i64range[packetNumber]) {
 // (may be truncated to fit) and whether the encoding is out of range (a
 // receiver must refuse it).
 func c28Build(x c28F) (f debugFrame, ref []byte, data, invalid bool) {
+	wv := func(b []byte, v uint64) []byte {
+		if x.W == 0 {
+			return c28V(b, v)
+		}
+		return c28VW(b, v, x.W)
+	}
 	switch x.K {
 	case "ping":
 		return debugFramePing{}, []byte{0x01}, false, false
@@ -108,36 +150,51 @@ func c28Build(x c28F) (f debugFrame, ref []byte, data, invalid bool) {
 		}
 		top := rs[len(rs)-1]
 		ref = append(ref, typ)
-		ref = c28V(ref, uint64(top.end-1))
-		ref = c28V(ref, x.A)
-		ref = c28V(ref, uint64(len(rs)-1))
-		ref = c28V(ref, uint64(top.end-top.start-1))
+		ref = wv(ref, uint64(top.end-1))
+		ref = wv(ref, x.A)
+		ref = wv(ref, uint64(len(rs)-1))
+		ref = wv(ref, uint64(top.end-top.start-1))
 		for i := len(rs) - 2; i >= 0; i-- {
-			ref = c28V(ref, uint64(rs[i+1].start-rs[i].end-1))
-			ref = c28V(ref, uint64(rs[i].end-rs[i].start-1))
+			ref = wv(ref, uint64(rs[i+1].start-rs[i].end-1))
+			ref = wv(ref, uint64(rs[i].end-rs[i].start-1))
 		}
 		if typ == 0x03 {
-			ref = c28V(ref, uint64(ecn.t0))
-			ref = c28V(ref, uint64(ecn.t1))
-			ref = c28V(ref, uint64(ecn.ce))
+			ref = wv(ref, uint64(ecn.t0))
+			ref = wv(ref, uint64(ecn.t1))
+			ref = wv(ref, uint64(ecn.ce))
 		}
 		return debugFrameAck{ackDelay: unscaledAckDelay(x.A), ranges: rs, ecn: ecn}, ref, false, false
 	case "reset_stream":
-		ref = c28V(c28V(c28V([]byte{0x04}, x.A), x.B), x.C)
+		ref = wv(wv(wv([]byte{0x04}, x.A), x.B), x.C)
 		return debugFrameResetStream{id: streamID(x.A), code: x.B, finalSize: int64(x.C)}, ref, false, false
 	case "stop_sending":
-		ref = c28V(c28V([]byte{0x05}, x.A), x.B)
+		ref = wv(wv([]byte{0x05}, x.A), x.B)
 		return debugFrameStopSending{id: streamID(x.A), code: x.B}, ref, false, false
 	case "crypto":
 		d := c28Data(x.L, 0x11)
-		ref = append(c28V(c28V([]byte{0x06}, x.A), uint64(x.L)), d...)
+		ref = append(wv(wv([]byte{0x06}, x.A), uint64(x.L)), d...)
 		return debugFrameCrypto{off: int64(x.A), data: d}, ref, true, false
 	case "new_token":
 		d := c28Data(x.L, 0x22)
-		ref = append(c28V([]byte{0x07}, uint64(x.L)), d...)
+		ref = append(wv([]byte{0x07}, uint64(x.L)), d...)
 		return debugFrameNewToken{token: d}, ref, false, x.L == 0
 	case "stream":
 		d := c28Data(x.L, 0x33)
+		if x.T != 0 {
+			// raw form: any of the 8 type bytes; without the LEN bit the data runs to the end of the packet
+			if x.T&0xf8 != 0x08 || (x.T&0x04 == 0 && x.B != 0) {
+				panic("c28: bad raw stream case")
+			}
+			ref = wv([]byte{x.T}, x.A)
+			if x.T&0x04 != 0 {
+				ref = wv(ref, x.B)
+			}
+			if x.T&0x02 != 0 {
+				ref = wv(ref, uint64(x.L))
+			}
+			ref = append(ref, d...)
+			return debugFrameStream{id: streamID(x.A), off: int64(x.B), fin: x.T&0x01 != 0, data: d}, ref, true, x.B+uint64(x.L) > 1<<62-1
+		}
 		typ := byte(0x08 | 0x02)
 		if x.B != 0 {
 			typ |= 0x04
@@ -145,43 +202,43 @@ func c28Build(x c28F) (f debugFrame, ref []byte, data, invalid bool) {
 		if x.Fin {
 			typ |= 0x01
 		}
-		ref = c28V([]byte{typ}, x.A)
+		ref = wv([]byte{typ}, x.A)
 		if x.B != 0 {
-			ref = c28V(ref, x.B)
+			ref = wv(ref, x.B)
 		}
-		ref = append(c28V(ref, uint64(x.L)), d...)
+		ref = append(wv(ref, uint64(x.L)), d...)
 		return debugFrameStream{id: streamID(x.A), off: int64(x.B), fin: x.Fin, data: d}, ref, true, x.B+uint64(x.L) >= 1<<62
 	case "max_data":
-		return debugFrameMaxData{max: int64(x.A)}, c28V([]byte{0x10}, x.A), false, false
+		return debugFrameMaxData{max: int64(x.A)}, wv([]byte{0x10}, x.A), false, false
 	case "max_stream_data":
-		return debugFrameMaxStreamData{id: streamID(x.A), max: int64(x.B)}, c28V(c28V([]byte{0x11}, x.A), x.B), false, false
+		return debugFrameMaxStreamData{id: streamID(x.A), max: int64(x.B)}, wv(wv([]byte{0x11}, x.A), x.B), false, false
 	case "max_streams":
 		typ, st := byte(0x12), bidiStream
 		if x.Fin {
 			typ, st = 0x13, uniStream
 		}
-		return debugFrameMaxStreams{streamType: st, max: int64(x.A)}, c28V([]byte{typ}, x.A), false, x.A > 1<<60
+		return debugFrameMaxStreams{streamType: st, max: int64(x.A)}, wv([]byte{typ}, x.A), false, x.A > 1<<60
 	case "data_blocked":
-		return debugFrameDataBlocked{max: int64(x.A)}, c28V([]byte{0x14}, x.A), false, false
+		return debugFrameDataBlocked{max: int64(x.A)}, wv([]byte{0x14}, x.A), false, false
 	case "stream_data_blocked":
-		return debugFrameStreamDataBlocked{id: streamID(x.A), max: int64(x.B)}, c28V(c28V([]byte{0x15}, x.A), x.B), false, false
+		return debugFrameStreamDataBlocked{id: streamID(x.A), max: int64(x.B)}, wv(wv([]byte{0x15}, x.A), x.B), false, false
 	case "streams_blocked":
 		typ, st := byte(0x16), bidiStream
 		if x.Fin {
 			typ, st = 0x17, uniStream
 		}
-		return debugFrameStreamsBlocked{streamType: st, max: int64(x.A)}, c28V([]byte{typ}, x.A), false, x.A > 1<<60
+		return debugFrameStreamsBlocked{streamType: st, max: int64(x.A)}, wv([]byte{typ}, x.A), false, x.A > 1<<60
 	case "new_connection_id":
 		cid := c28Data(x.L, 0x44)
 		var tok statelessResetToken
 		copy(tok[:], c28Data(16, 0x55))
-		ref = c28V(c28V([]byte{0x18}, x.A), x.B)
+		ref = wv(wv([]byte{0x18}, x.A), x.B)
 		ref = append(ref, byte(x.L))
 		ref = append(ref, cid...)
 		ref = append(ref, tok[:]...)
 		return debugFrameNewConnectionID{seq: int64(x.A), retirePriorTo: int64(x.B), connID: cid, token: tok}, ref, false, x.L < 1 || x.L > 20 || x.B > x.A
 	case "retire_connection_id":
-		return debugFrameRetireConnectionID{seq: int64(x.A)}, c28V([]byte{0x19}, x.A), false, false
+		return debugFrameRetireConnectionID{seq: int64(x.A)}, wv([]byte{0x19}, x.A), false, false
 	case "path_challenge", "path_response":
 		var d pathChallengeData
 		binary.BigEndian.PutUint64(d[:], x.A)
@@ -191,11 +248,11 @@ func c28Build(x c28F) (f debugFrame, ref []byte, data, invalid bool) {
 		return debugFramePathResponse{data: d}, append([]byte{0x1b}, d[:]...), false, false
 	case "cc_transport":
 		r := c28Data(x.L, 0x61)
-		ref = append(c28V(c28V(c28V([]byte{0x1c}, x.A), x.B), uint64(x.L)), r...)
+		ref = append(wv(wv(wv([]byte{0x1c}, x.A), x.B), uint64(x.L)), r...)
 		return debugFrameConnectionCloseTransport{code: transportError(x.A), frameType: x.B, reason: string(r)}, ref, false, false
 	case "cc_app":
 		r := c28Data(x.L, 0x62)
-		ref = append(c28V(c28V([]byte{0x1d}, x.A), uint64(x.L)), r...)
+		ref = append(wv(wv([]byte{0x1d}, x.A), uint64(x.L)), r...)
 		return debugFrameConnectionCloseApplication{code: x.A, reason: string(r)}, ref, false, false
 	}
 	panic("c28: unknown frame kind " + x.K)
@@ -487,6 +544,136 @@ func c28GenFrames(c *vx.Ctx, yield func(c28F) bool) {
 	}
 }
 
+// ---- raw encodings (forms the library's own writer never produces)
+
+// c28GenRaw yields, for part "rawframes": every STREAM type byte 0x08..0x0f (all
+// OFF/LEN/FIN combinations; the writer only emits LEN-bit forms and never an
+// explicit zero offset) x stream IDs x data lengths x offsets at the general
+// boundary values and on both sides of offset+length = 2^62-1, and every other
+// frame kind with varint fields at the boundary values of part "frames", each
+// with its varints in the shortest (STREAM only; the others are in part
+// "frames"), the next longer and the 8-byte encoding.
+func c28GenRaw(c *vx.Ctx, yield func(c28F) bool) {
+	const top = uint64(1<<62 - 1)
+	for t := byte(0x08); t <= 0x0f; t++ {
+		for w := 0; w <= 2; w++ {
+			for _, a := range c28Vals {
+				for _, l := range []int{0, 1, 2, 63, 64, 100} {
+					offs := []uint64{0}
+					if t&0x04 != 0 {
+						offs = append(offs, c28Vals[1:]...)
+						for _, o := range []uint64{top - 1, top - uint64(l) - 1, top - uint64(l), top - uint64(l) + 1} {
+							dup := o > top
+							for _, p := range offs {
+								dup = dup || p == o
+							}
+							if !dup {
+								offs = append(offs, o)
+							}
+						}
+					}
+					for _, b := range offs {
+						if !yield(c28F{K: "stream", T: t, W: w, A: a, B: b, L: l}) {
+							return
+						}
+					}
+				}
+			}
+		}
+	}
+	stop := false
+	for w := 1; w <= 2 && !stop; w++ {
+		c28GenFrames(c, func(x c28F) bool {
+			switch x.K {
+			case "stream", "ping", "handshake_done", "path_challenge", "path_response":
+				return true // STREAM: above; the others have no varint field
+			}
+			x.W = w
+			if !yield(x) {
+				stop = true
+			}
+			return !stop
+		})
+	}
+}
+
+func c28CheckRaw(w *vx.W, x c28F) {
+	const id = "C28/rawframes/"
+	f, ref, _, invalid := c28Build(x)
+	kind := x.K
+	// without a Length field a STREAM frame extends to the end of the packet
+	toEnd := x.K == "stream" && x.T != 0 && x.T&0x02 == 0
+	tail := append(append([]byte(nil), ref...), 0x01, 0xff)
+	if invalid {
+		if g, n := parseDebugFrame(c28Exact(ref)); n >= 0 {
+			w.Failf(id+"out-of-range-accepted:"+kind, "%+v: the encoding %x is outside the range RFC 9000 allows (§19.8: offset + length above 2^62-1), parseDebugFrame returned n=%d %v", x, ref, n, g)
+			return
+		}
+		if g, n := parseDebugFrame(c28Exact(tail)); n >= 0 {
+			w.Failf(id+"out-of-range-accepted:"+kind, "%+v: the encoding %x followed by 01ff is outside the range RFC 9000 allows, parseDebugFrame returned n=%d %v", x, ref, n, g)
+			return
+		}
+		w.Nontrivial()
+		w.Outcome("raw: out-of-range refused")
+		return
+	}
+	same := func(g debugFrame) bool { return reflect.DeepEqual(c28Norm(g), c28Norm(f)) }
+	parse := parseDebugFrame
+	if fa, isAck := f.(debugFrameAck); isAck {
+		// the primary parser (ranges arrive highest first); the debug parser's order is part "frames"
+		parse = func(b []byte) (debugFrame, int) {
+			var got debugFrameAck
+			var n int
+			_, got.ackDelay, got.ecn, n = consumeAckFrame(b, func(idx int, s, e packetNumber) {
+				got.ranges = append(got.ranges, i64range[packetNumber]{s, e})
+			})
+			return got, n
+		}
+		same = func(g debugFrame) bool {
+			ga := g.(debugFrameAck)
+			ok := ga.ackDelay == fa.ackDelay && ga.ecn == fa.ecn && len(ga.ranges) == len(fa.ranges)
+			for i := 0; ok && i < len(ga.ranges); i++ {
+				ok = ga.ranges[i] == fa.ranges[len(fa.ranges)-1-i]
+			}
+			return ok
+		}
+	}
+	g, n := parse(c28Exact(ref))
+	if n != len(ref) || !same(g) {
+		sig := "valid-encoding-parses-differently:"
+		if n < 0 {
+			sig = "valid-encoding-refused:"
+		}
+		w.Failf(id+sig+kind, "%+v: RFC 9000 encoding %x parsed to n=%d %v, want n=%d %v", x, ref, n, g, len(ref), f)
+		return
+	}
+	if !toEnd {
+		if g2, n2 := parse(c28Exact(tail)); n2 != len(ref) || !same(g2) {
+			w.Failf(id+"parse-depends-on-following-bytes:"+kind, "%+v: %x followed by 01ff parsed to n=%d %v", x, ref, n2, g2)
+			return
+		}
+	}
+	for i := 1; i <= len(ref); i++ {
+		if _, tn := parseDebugFrame(c28Exact(ref[:i])); tn > i {
+			w.Failf(id+"consumed-beyond-input:"+kind, "%+v: %x truncated to %d bytes, parser consumed %d", x, ref, i, tn)
+			return
+		}
+	}
+	w.Nontrivial()
+	w.Outcome("raw: accepted " + kind)
+	if x.K == "stream" {
+		if toEnd {
+			w.Outcome("raw: STREAM frame without Length field")
+		}
+		if x.T&0x04 != 0 && x.B == 0 {
+			w.Outcome("raw: STREAM frame with explicit offset 0")
+		}
+		if x.B+uint64(x.L) == 1<<62-1 {
+			w.Outcome("raw: STREAM frame ending exactly at 2^62-1")
+		}
+	}
+}
+
 // ---- ACK frames with many ranges (the one-byte ACK Range Count)
 
 // c28AckN is one case of part "ackranges": an ACK frame for a range set of N
@@ -743,6 +930,8 @@ func TestVerif_C28(t *testing.T) {
 		c.Rule(fmt.Sprintf("part bytes: every byte string of length <= %d into parseDebugFrame, unmarshalTransportParams, parseLongHeaderPacket (with and without keys), skipLongHeaderPacket, parse1RTTPacket, dstConnIDForDatagram, parseVersionNegotiation, parseGenericLongHeaderPacket, getPacketType, as slices with cap==len (a read past the end panics): no panic, nothing consumed beyond the input.", vx.Pick(c, 2, 3)))
 		c.Assume("frame parsers are only called with at least the type byte present (Conn.handleFrames dispatches on payload[0]); the writer is only asked to emit frames RFC 9000 allows")
 		vx.Enumerate(c, "frames", vx.Opts{}, func(yield func(c28F) bool) { c28GenFrames(c, yield) }, c28CheckFrame)
+		c.Rule("part rawframes: encodings built by the independent encoder that packetWriter never produces, through parseDebugFrame (ACK: consumeAckFrame): (a) STREAM frames with every type byte 0x08..0x0f (every OFF/LEN/FIN combination; without LEN the data runs to the end of the input, with OFF the offset is explicit also when 0) x stream ID in the 9 boundary values x data length {0, 1, 2, 63, 64, 100} x offset in the boundary values + {2^62-2, 2^62-2-len, 2^62-1-len, 2^62-len} (both sides of offset+length = 2^62-1) x varints in the shortest / next longer / 8-byte form; (b) every other frame kind with a varint field, at all field/length combinations of part frames, with all varints in the next longer and in the 8-byte form. A frame inside RFC 9000 ranges must be consumed completely and yield exactly the fields (also when followed by other bytes, unless it has no Length field); a STREAM frame with offset+length > 2^62-1 (§19.8) and the out-of-range encodings of part frames must be refused; truncations consume no more than the input. Non-trivial = the case was parsed and compared.")
+		vx.Enumerate(c, "rawframes", vx.Opts{}, func(yield func(c28F) bool) { c28GenRaw(c, yield) }, c28CheckRaw)
 		c.Rule(fmt.Sprintf("part ackranges: packetWriter.appendAckFrame on range sets of N disjoint ranges, N in %s, x 5 shapes (per-range gap/length fields all 0; all 1; 2-byte gaps; 2-byte lengths; mixed 1/2/4-byte fields; largest acknowledged and ack delay from 1 to 4-byte varints) x ECN counts {none%s, large} x remaining packet space {every value 0..min(length of the complete RFC 9000 encoding + 2, %s), the untouched 1-RTT packet of a 1200-byte datagram (%d bytes)}. The writer reserves one byte for the ACK Range Count, so the family contains 62/63/64/65 additional ranges with room for all of them (and the counts where a 2-byte count or a wrapped byte counter would appear). An emitted frame must fit the space; consumeAckFrame must consume exactly the bytes written and report the written delay and ECN counts, the highest range of the set exactly, and below it only strictly descending non-empty ranges each inside a range of the set (older ranges may be dropped); parseDebugFrame must consume the same bytes and report the same ranges ascending; a refused frame leaves packet and sent record untouched. Non-trivial = frame emitted and parsed back.",
 			vx.Pick(c, "{1, 2, 3, 8, 32, 61..67, 100, 127..130, 200, 255..258, 300, 319..321}", "1..330"), vx.Pick(c, "", ", small"), vx.Pick(c, "300", "the packet"), c28AckRoom()))
 		vx.Enumerate(c, "ackranges", vx.Opts{}, func(yield func(c28AckN) bool) { c28GenAckN(c, yield) }, c28CheckAckN)
